@@ -51,9 +51,6 @@ pub(crate) fn with_attrs(mut d: DirFileEntryData, bits: u8) -> DirFileEntryData 
     d.attrs = FileAttributes::from_bits_truncate(bits);
     d
 }
-pub(crate) fn d_size_raw(d: &DirFileEntryData) -> u32 {
-    d.size
-}
 pub(crate) fn d_is_dir(d: &DirFileEntryData) -> bool {
     d.is_dir()
 }
